@@ -60,7 +60,8 @@ def replay(path):
             print('REPLAY ok' if same else 'REPLAY VIOL key=build-diverge:-:run')
             return 0 if same else 1
         exe, failed = build.build_world('hist', bld, ['core', 'io', 'conv'], thorough=True)
-        rp = checks.Replayer(exe, ','.join(sorted(failed)), STACK_IDS)
+        wrapper = [shutil.which('valgrind'), '-q', '--error-exitcode=0'] if valgrind else None
+        rp = checks.Replayer(exe, ','.join(sorted(failed)), STACK_IDS, wrapper=wrapper)
     elif world == 'iofault':
         from . import iofault_check
         bld = bld or 'rel-plain'
@@ -72,6 +73,19 @@ def replay(path):
         bld = bld or 'thr-rel'
         exe, failed = build.build_world('threads', bld, ['core', 'thr'], thorough=True)
         rp = threads_check.ThrReplayer(exe, ','.join(sorted(failed)), STACK_IDS)
+    elif world == 'hist-range':
+        from . import hist_check
+        line = [l for l in text.splitlines() if l.startswith('range ')][0]
+        m = re.match(r'range args=(.*) runs=(\d+):(\d+)', line)
+        args = m.group(1).split('|')
+        exe, failed = build.build_world('hist', bld or 'rel-plain', ['core', 'io', 'conv'], thorough='thorough' in args)
+        # the disabled list is part of the recorded arguments; keep it as recorded
+        key, detail = hist_check.range_key(exe, args, int(m.group(2)), int(m.group(3)))
+        if key is None:
+            print('REPLAY ok (%s)' % detail)
+            return 0
+        print('REPLAY VIOL key=%s :: %s' % (key, detail))
+        return 1
     elif world == 'golden':
         import subprocess, os
         exe, failed = build.build_world('golden', bld or 'rel-plain', ['core', 'io'], thorough=True)
